@@ -316,15 +316,40 @@ func convertReal(real core.ZodSchema, o Opt) (c compiled) {
 
 func b01(b bool) string { return hx.B01(b) }
 
-func probeLegacyObj() bool {
+func probeLegacyMap() bool {
 	legacy := false
 	hx.Safely(func() {
-		js, err := gozod.ToJSONSchema(gozod.Object(core.ObjectSchema{"a": gozod.String()}).Partial())
-		if err == nil && js != nil && len(js.Required) > 0 {
+		js, err := gozod.ToJSONSchema(gozod.Map(gozod.String().Min(2), gozod.Int()))
+		if err == nil && js != nil && js.PropertyNames == nil {
 			legacy = true
 		}
 	})
 	return legacy
+}
+
+// jsonable: the value Parse returned, with map[any]any (ZodMap's result type) turned into map[string]any.
+func jsonable(v any) any {
+	switch x := v.(type) {
+	case map[any]any:
+		out := make(map[string]any, len(x))
+		for k, e := range x {
+			out[fmt.Sprint(k)] = jsonable(e)
+		}
+		return out
+	case map[string]any:
+		out := make(map[string]any, len(x))
+		for k, e := range x {
+			out[k] = jsonable(e)
+		}
+		return out
+	case []any:
+		out := make([]any, len(x))
+		for i, e := range x {
+			out[i] = jsonable(e)
+		}
+		return out
+	}
+	return v
 }
 
 var panics int
@@ -350,7 +375,7 @@ func runInst(s *Sch, real core.ZodSchema, c *compiled, j *J) string {
 	}
 	vr = "-"
 	if p == "1" {
-		rb, err := json.Marshal(ret)
+		rb, err := json.Marshal(jsonable(ret))
 		if err != nil {
 			vr = "unmarshalable"
 		} else {
@@ -508,10 +533,10 @@ func runC07(cfg hx.Config) error {
 		r.rawDocs, _ = os.Create(p)
 		defer r.rawDocs.Close()
 	}
-	// probe: does the converter ask the object which fields may be absent?  Object{a: String()}.Partial() has no
-	// required field; a converter that looks at the field schemas alone still emits required:["a"].
-	legacyObj = probeLegacyObj()
-	out.Count("probe:converter-ignores-object-optionality=" + b01(legacyObj))
+	// probe: does convertMap carry the key schema into the document?  (The model is the converter with the fix
+	// C07-map-key-schema; until it lands the old converter's document is the model's `toDocL false true`.)
+	legacyMap = probeLegacyMap()
+	out.Count("probe:convertMap-drops-key-schema=" + b01(legacyMap))
 	corpus := corpusSchemas()
 	seen := map[string]bool{}
 	liveOf := map[*Sch]*live{}
@@ -529,6 +554,16 @@ func runC07(cfg hx.Config) error {
 				s.Part = false
 				s.Ops = g.objOps(s)
 			}
+			// Map at the top of the schema (5 %): string key schema with or without checks, any value schema, size checks
+			if rng.Chance(5) {
+				s = &Sch{K: "map", Key: g.strSchema(), Elem: g.schema(2, false)}
+				if rng.Chance(35) {
+					s.Key = &Sch{K: "str"}
+				}
+				if rng.Chance(25) {
+					s.Cks = g.sizeCks()
+				}
+			}
 			// Lazy on top of the schema (the model has Lazy at the top only): once or twice, with the lazy schema's own
 			// Optional()/Nilable() flags
 			if rng.Chance(12) {
@@ -543,7 +578,7 @@ func runC07(cfg hx.Config) error {
 			continue
 		}
 		seen[text] = true
-		if s.K != "lazy" && len(s.Ops) == 0 {
+		if s.K != "lazy" && s.K != "map" && len(s.Ops) == 0 {
 			g.pool = append(g.pool, s) // a lazy schema / an object with a call history is never embedded in a later schema
 		}
 		lv := &live{s: s, text: text, dup: hasDup(s), judged: map[string]bool{}}
